@@ -31,7 +31,7 @@ MonitorAccepts == v \in 1..15 =>
   LET of == SetToSeq(Subset(v))
       val == OrAll(Flags, of)
       good == [v |-> val, text |-> RenderMask(v), merr |-> FALSE, back |-> val, uerr |-> FALSE, panic |-> FALSE,
-               str |-> RenderMask(v), of |-> of, back2 |-> val, uerr2 |-> FALSE]
+               str |-> RenderMask(v), of |-> of, back2 |-> val, uerr2 |-> FALSE, again_differs |-> FALSE]
       lossy == [good EXCEPT !.text = <<>>, !.str = <<>>]
       \* a parser that leaves a used variable untouched is refused
       stale == [good EXCEPT !.back2 = Fit(W(255), 8)]
